@@ -315,11 +315,14 @@ class Folder(FileSystemItemABC):
             self.sys_log.error(f"Unable to restore file {file_name}. File does not exist.")
             return False
 
+        was_deleted = file.deleted
         file.restore()
         self.files[file.uuid] = file
 
-        if file.deleted:
+        if was_deleted:
             self.deleted_files.pop(file.uuid)
+            # a newer file of the same name may have taken over the request route while this one was deleted
+            self._file_request_manager.add_request(file.name, RequestType(func=file._request_manager))
         return True
 
     def quarantine(self):
